@@ -25,6 +25,19 @@ func registerRegen(p *Program) {
 	p.Intr[basePkg+".GetClassIDFromProjectID"] = uf("class_id_of_project_id")
 	p.Intr[basePkg+".GetCreditTypeAbbrevFromClassID"] = uf("abbrev_of_class_id")
 
+	// gogo <-> pulsar conversions through the wire format: structural field-by-field copy
+	// between the two generated structs of the same proto message (trusted).
+	conv := func(x *Exec, c *CallCtx) Value {
+		if n, _ := isNilValue(unwrapIface(c.Args[0])); n {
+			return IfaceV{}
+		}
+		x.copyMessage(c.Args[1], c.Args[0])
+		return IfaceV{}
+	}
+	p.Intr[RegenPrefix+"types/v2/ormutil.PulsarToGogoSlow"] = conv
+	p.Intr[RegenPrefix+"types/v2/ormutil.GogoToPulsarSlow"] = conv
+	p.Intr[RegenPrefix+"x/ecocredit/v3/marketplace/keeper.gogoToProtoReflect"] = conv
+
 	// FormatBasketDenom on opaque strings: an uninterpreted function of its arguments plus
 	// the lemmas proved at content level by the C14 harness C14_BasketDenom:
 	// the denom is a valid bank denom and is accepted by ValidateBasketDenom.
